@@ -154,4 +154,33 @@ def noUnknownEntries (c : Config) (pkts : List Packet) : Bool :=
       | _ => true
     | _ => true
 
+/-- with the feature off, a data set whose governing template has a field of unknown type reports no
+    decoded record at all.  The governing template is tracked through the call: the caches before it,
+    updated by every template set REPORTED in the result, in order. -/
+def noRecordsOfUnknownTemplates (c : Config) (before _after : PState) (pkts : List Packet) : Bool :=
+  let unkV9 (t : V9Template) : Bool := t.fields.any fun f => c.t.v9Ty (c.t.v9Field f.typ) == .unknown
+  let unkIp (fs : List IpTField) : Bool := fs.any fun f => f.ent.isNone && c.t.ipTy (c.t.ipField f.typ) == .unknown
+  -- (v9 data templates, ipfix templates, ipfix options templates) : id ↦ has an unknown-typed field
+  let init : List (Nat × Bool) × List (Nat × Bool) × List (Nat × Bool) :=
+    (before.v9T.map (fun e => (e.1, unkV9 e.2)), before.ipT.map (fun e => (e.1, unkIp e.2.fields)), before.ipO.map (fun e => (e.1, unkIp e.2.fields)))
+  let stepV9 (acc : (List (Nat × Bool) × List (Nat × Bool) × List (Nat × Bool)) × Bool) (s : V9Set) :=
+    let (m, ok) := acc
+    match s.body with
+    | .templates ts _ => ((ts.foldl (fun t x => (x.id, unkV9 x) :: t) m.1, m.2.1, m.2.2), ok)
+    | .optTemplates ts _ => ((m.1.filter (fun e => !(ts.any fun x => x.id == e.1)), m.2.1, m.2.2), ok)
+    | .data recs _ => (m, ok && (recs.isEmpty || (m.1.lookup s.id) != some true))
+    | _ => (m, ok)
+  let stepIp (acc : (List (Nat × Bool) × List (Nat × Bool) × List (Nat × Bool)) × Bool) (s : IpSet) :=
+    let (m, ok) := acc
+    match s.body with
+    | .template t => ((m.1, (t.id, unkIp t.fields) :: m.2.1, m.2.2.filter (·.1 != t.id)), ok)
+    | .optTemplate t => ((m.1, m.2.1.filter (·.1 != t.id), (t.id, unkIp t.fields) :: m.2.2), ok)
+    | .data recs _ => (m, ok && (recs.isEmpty || (m.2.1.lookup s.id) != some true))
+    | .optData recs _ => (m, ok && (recs.isEmpty || (m.2.2.lookup s.id) != some true))
+  (pkts.foldl (fun acc p =>
+    match p with
+    | .v9 _ ss => ss.foldl stepV9 acc
+    | .ipfix _ ss => ss.foldl stepIp acc
+    | _ => acc) (init, true)).2
+
 end Netflow.Findings
